@@ -36,7 +36,7 @@ def run(chk):
     ]
     # ---- R17.1
     adts = f['adts']
-    chk.floor('R17.1', 'ADTs walked', len(adts), 17)
+    chk.floor('R17.1', 'ADTs walked', len(adts), 12)      # the 14 public types minus slack; private helper types come and go
     for a in adts:
         chk.ob('R17.1', "type %s: no UnsafeCell reachable (walked %d types); generic parameters reached: %s" %
                (a['path'], a['types_walked'], a['reached_params']),
